@@ -50,8 +50,8 @@ PROP = {
                 H("c15_isd_from_str_n6", "B", bound="strings <= 6 bytes", what="Isd::from_str total + language", timeout=900),
                 H("c15_asn_from_str_n5", "B", bound="strings <= 5 bytes", what="Asn::from_str total + language", timeout=2400),
                 H("c15_isd_asn_from_str_n5", "B", bound="strings <= 5 bytes", what="IsdAsn::from_str total + language", timeout=2400),
-                H("c15_asn_from_str_n6", "B", tier="experimental", bound="strings <= 6 bytes", what="Asn::from_str total + language", timeout=3600),
-                H("c15_isd_asn_from_str_n6", "B", tier="experimental", bound="strings <= 6 bytes", what="IsdAsn::from_str total + language", timeout=3600),
+                H("c15_asn_from_str_n6", "B", tier="thorough", bound="strings <= 6 bytes", what="Asn::from_str total + language", timeout=3600),
+                H("c15_isd_asn_from_str_n6", "B", tier="thorough", bound="strings <= 6 bytes", what="IsdAsn::from_str total + language", timeout=3600),
                 H("c15_svc_from_str_n6", "B", bound="strings <= 6 bytes", what="ServiceAddr::from_str total + language", timeout=2400),
                 H("c15_rt_isd", "P", what="Isd display/parse round trip, all 2^16 values", timeout=900),
                 H("c15_rt_svc", "P", tier="experimental", what="ServiceAddr display/parse round trip, all 2^16 values", timeout=3600),
